@@ -94,6 +94,14 @@ func genFaults(c *Ctx, kinds []string) {
 	// timeseries / tsquery pipelines, JSON providers, FromIterator. Sequential, so every fault position is on the
 	// demand path; decided by the spec predicate on the real code (SPEC cases).
 	specPipes := []string{
+		// close-only lifecycle elements (NewLifecycle(nil, close), NewSimpleStream(f, WithCloseFuncOption)): closed exactly
+		// once whenever they were (trivially) opened, on every exit path and under composites
+		"dirfile", "rdirfile", "concat 2 lc 1 src 0 1 dirfile", "zip 2 lc 1 src 0 1,2 rdirfile",
+		"lcc 201 lc 1 src 0 1,2,3",
+		"lc 2 lcc 201 src 0 1,2,3",
+		"map add:1 srcc 202 1,2,3",
+		"zip 2 lcc 201 src 0 1,2 srcc 202 3,4",
+		"concat 2 srcc 202 1,2 lcc 201 src 0 3",
 		"jinner 2 lc 2 src 0 1,2,3 lc 3 src 1 2,3,4",
 		"jleft 3 src 0 1,2,3 lc 4 src 1 2,4 src 2 -",
 		"jfull 2 lc 2 src 0 1,3 src 1 2,3",
